@@ -8,6 +8,8 @@ use pv::fl::Fl;
 use pv::refmodel::{max_abs_diff, V3};
 use pv::{json, Collector, Ctx, Mode, Tier, Value};
 
+mod assembled;
+
 fn to64<T: Fl>(v: [T; 3]) -> V3 {
     [v[0].to64(), v[1].to64(), v[2].to64()]
 }
@@ -520,6 +522,16 @@ macro_rules! with_graph {
 
 fn replay(c: &mut Collector, rep: &Value) {
     let case = &rep["case"];
+    if case["sub"] == "assembled" {
+        // small space: the sub-check is re-run and only the replayed signature kept
+        let ctx = Ctx { only: Some("assembled-standards".into()), ..Ctx::from_args("C01").0 };
+        let mut all = Collector::new();
+        assembled::run(&ctx, &mut all);
+        let want = rep["signature"].as_str().unwrap_or("").to_string();
+        all.viol.retain(|k, _| *k == want);
+        c.merge(all);
+        return;
+    }
     let group = case["group"].as_str().unwrap_or("").to_string();
     let float = case["float"].as_str().unwrap_or("").to_string();
     let path: Vec<String> = case["path"].as_array().map(|a| a.iter().map(|x| x.as_str().unwrap_or("").to_string()).collect()).unwrap_or_default();
@@ -605,6 +617,7 @@ fn real_main() -> i32 {
         }
         total.merge(p3);
     }
+    assembled::run(&ctx, &mut total);
     if ctx.only.is_none() {
         check_expected_edges(&mut total, &adjacency);
     }
